@@ -93,6 +93,37 @@ func checkSort(scen string, in SortIn) *mc.Violation {
 			return mc.V(scen, "sort-nondecreasing", in, "non-decreasing under Compare", fmt.Sprintf("%+v > %+v at %d in %+v", s[i], s[i+1], i, s))
 		}
 	}
+	// the other ways the sort package drives the adapter: the result counts as sorted, a stable sort of the input gives a
+	// non-decreasing permutation too, and reversing through sort.Reverse gives a non-increasing one
+	if !sort.IsSorted(s) {
+		return mc.V(scen, "sort-nondecreasing", in, "sort.IsSorted(result)", "false")
+	}
+	st := append(version.Slice(nil), orig...)
+	rv := append(version.Slice(nil), orig...)
+	if pan, msg := mc.Guard(func() { sort.Stable(st); sort.Sort(sort.Reverse(rv)) }); pan {
+		return mc.V(scen, "sort-terminates", in, "sort.Stable / sort.Reverse return", "panic: "+msg)
+	}
+	for i := 0; i+1 < len(st); i++ {
+		if version.Compare(st[i], st[i+1]) > 0 {
+			return mc.V(scen, "sort-nondecreasing", in, "sort.Stable: non-decreasing under Compare", fmt.Sprintf("%+v > %+v at %d", st[i], st[i+1], i))
+		}
+		if version.Compare(rv[i], rv[i+1]) < 0 {
+			return mc.V(scen, "sort-nondecreasing", in, "sort.Sort(sort.Reverse(s)): non-increasing under Compare", fmt.Sprintf("%+v < %+v at %d", rv[i], rv[i+1], i))
+		}
+	}
+	cnt2 := map[version.Version]int{}
+	for _, v := range orig {
+		cnt2[v] += 2
+	}
+	for i := range st {
+		cnt2[st[i]]--
+		cnt2[rv[i]]--
+	}
+	for v, n := range cnt2 {
+		if n != 0 {
+			return mc.V(scen, "sort-permutation", in, "sort.Stable and sort.Reverse results are permutations of the input", fmt.Sprintf("%+v off by %d", v, n))
+		}
+	}
 	// Less must agree with Compare on the sorted slice too
 	for i := 0; i < len(s); i++ {
 		for j := 0; j < len(s); j++ {
